@@ -250,7 +250,11 @@ class Monitor:
 
     # -- lifecycle -------------------------------------------------------------------------------
     def reset_case(self):
-        """Forget per-case state (called between independent cases)."""
+        """Forget per-case state (called between independent cases).  Objects of earlier cases that are still
+        alive (garbage not yet collected) are dropped from the registry so they cannot be attributed to this case."""
+        import gc
+        gc.collect()
+        self.registry = weakref.WeakSet()
         self.snaps.clear()
         self.wf_reported.clear()
 
